@@ -1310,3 +1310,14 @@ mod tests {
             .expect("creating test store failed")
     }
 }
+
+/// Verification hooks: compiled only with `--cfg eigerco_lumina_verif` (see /verif).
+#[cfg(eigerco_lumina_verif)]
+#[doc(hidden)]
+#[allow(unused_imports, missing_docs, dead_code, unreachable_pub)]
+pub mod verif {
+    use super::*;
+    pub use super::utils::verif as utils;
+    pub use super::in_memory_store::verif as in_memory_store;
+    pub use super::redb_store::verif as redb_store;
+}
